@@ -78,8 +78,8 @@ def run(ctx, replay):
     ctx.extra["big_table_keys"] = bigkeys
     if not kinds.get("Panic"):
         missing = [k for k in ("Create", "Offered", "Close", "Open", "Get", "Iterate", "Merged", "Flushed", "Found",
-                               "Loaded", "BigBuilt", "BigGet", "BigAbsent", "BigIterated", "Installed", "Listed",
-                               "Compacted") if not kinds.get(k)]
+                               "Loaded", "BigBuilt", "BigGet", "BigAbsent", "BigIterated", "Installed", "Removed", "Listed",
+                               "Compacted", "Moved") if not kinds.get(k)]
         if missing:
             raise vcore.Unresolved("vacuous run: no event of kind %s" % missing)
     vcore.validate_all(ctx, "TableFileTrace", "TableFileTrace.cfg", tr, describe=describe, dfs=False, timeout=1800)
@@ -97,7 +97,7 @@ def run(ctx, replay):
     # binding self-tests
     traces = vcore.split_traces(vcore.read_lines(tr))
     pick = [t for t in traces if '"mode":"tables"' in t[0]][:6] + [t for t in traces if '"mode":"version"' in t[0]][:4] \
-        + [t for t in traces if '"mode":"big"' in t[0]][:1] + [t for t in traces if '"mode":"levels"' in t[0]][:2]
+        + [t for t in traces if '"mode":"big"' in t[0]][:1] + [t for t in traces if '"mode":"levels"' in t[0] and ('"ev":"Removed"' in "".join(t) or '"ev":"Moved"' in "".join(t))][:2]
     clean = os.path.join(ctx.scratch, "table-clean.ndjson")
     with open(clean, "w") as f:
         for t in pick:
